@@ -1089,9 +1089,10 @@ def differential(ctx, kf, budget_pairs, maxdepth, rnd, with_coq, exhaustive=Fals
             yield "gen", (gw if rnd.random() < 0.12 else g1).top(depth)
 
     npairs = 0
+    ngen = 0
     seen = set()
     for kind, text in texts():
-        if npairs >= budget_pairs and kind == "gen":
+        if ngen >= budget_pairs and kind == "gen":
             break
         if time_limit and time.time() - t0 > time_limit:
             break
@@ -1127,6 +1128,8 @@ def differential(ctx, kf, budget_pairs, maxdepth, rnd, with_coq, exhaustive=Fals
                 continue
             oi, oc, op, orf, os_ = outs
             npairs += 1
+            if kind == "gen":
+                ngen += 1
             ctx.count_case((shape_of(tree), r["which"], ri), nontrivial=nontrivial(text))
             if kind == "outside":
                 chk.outside_check(text, tree, r, oi)
@@ -1187,16 +1190,17 @@ def run(ctx):
         return
     rnd = random.Random(ctx.seed)
     quick = ctx.tier == "quick"
-    chk, recs, cases, metas = differential(ctx, kf, 2600 if quick else 30000, 3 if quick else 5, rnd, with_coq=True,
+    chk, recs, cases, metas = differential(ctx, kf, 16000 if quick else 120000, 3 if quick else 5, rnd, with_coq=True,
                                            exhaustive=not quick)
     ctx.coverage["exhaustive"] = False
+    ctx.coverage["programs"] = len({m["expr"] for m in metas}) if metas else 0
     ctx.notes.append("implementation-level: %(pairs)d pairs, %(defined)d with ground truth a value and all sub-expressions "
                      "defined, %(agree_checked)d engine results compared with it, %(known)d inside known-finding classes, "
                      "%(outside)d outside-the-language evaluations" % chk.stats)
     if ctx.violations:
         return
-    if not quick and len(cases) > 24000:
-        keep = sorted(rnd.sample(range(len(cases)), 24000))
+    if not quick and len(cases) > 60000:
+        keep = sorted(rnd.sample(range(len(cases)), 60000))
         cases = [cases[i] for i in keep]
         metas = [metas[i] for i in keep]
     codes, err = eval_codes(ctx, [cq_record(r) for r in recs], cases)
@@ -1232,7 +1236,11 @@ def replay(obj):
         r = build_record(obj["record"]["which"], obj["record"]["vals"])
         text = obj["expr"]
         tree = ast.parse(text, mode="eval")
-        oi, oc, op, orf, os_ = run_pair(text, tree, r, {})
+        outs = run_pair(text, tree, r, {})
+        if outs is None:
+            print("replay: the pair is outside what the harness runs (huge intermediate value)")
+            return 2
+        oi, oc, op, orf, os_ = outs
         print("replay %s on %s: interpreted=%r compiled=%r python=%r all_defined=%s" % (
             text, fmt_vals(r), truth_of(oi), truth_of(oc), truth_of(op), os_[0] == "val"))
         if kind == "outside":
